@@ -132,6 +132,72 @@ struct Built {
     model: Model,
 }
 
+/// class-table family: obfuscated class names that differ in '.', '$', '-' or a non-ASCII character at the same place
+/// (their byte order, segment-wise order and the order of their '/'-forms all differ)
+const TABLE_POOL: [&str; 14] = ["a", "a.a", "a.a.a", "a.a$a", "a.a-a", "a.aa", "a.a$", "a$a", "a$a.a", "A.a", "\u{e9}.a", "a.\u{e9}", "a.a.b", "a.a$b"];
+
+/// every ordered selection of <= 3 pool names, and the whole pool ascending / descending / as listed, as class tables
+/// (class i maps to `o.C<i>`); label = "T:" + the names joined by ','
+fn table_mappings() -> Vec<Vec<&'static str>> {
+    let mut v: Vec<Vec<&'static str>> = Vec::new();
+    let n = TABLE_POOL.len();
+    for a in 0..n {
+        v.push(vec![TABLE_POOL[a]]);
+        for b in 0..n {
+            if b == a {
+                continue;
+            }
+            v.push(vec![TABLE_POOL[a], TABLE_POOL[b]]);
+            for c in 0..n {
+                if c == a || c == b {
+                    continue;
+                }
+                v.push(vec![TABLE_POOL[a], TABLE_POOL[b], TABLE_POOL[c]]);
+            }
+        }
+    }
+    let mut all: Vec<&'static str> = TABLE_POOL.to_vec();
+    v.push(all.clone());
+    all.sort();
+    v.push(all.clone());
+    all.reverse();
+    v.push(all);
+    v
+}
+fn table_lines(names: &[&'static str]) -> Vec<Line> {
+    names.iter().map(|n| class(leak(&format!("o.C{}", TABLE_POOL.iter().position(|p| p == n).unwrap_or(99))), n)).collect()
+}
+fn table_descriptors() -> Vec<String> {
+    let mut v = Vec::new();
+    for n in TABLE_POOL {
+        let sl = n.replace('.', "/");
+        v.push(format!("(L{};)V", sl));
+        v.push(format!("([L{};I)L{};", sl, sl));
+    }
+    v.push("(La/a/;La/;L/a;)V".into());
+    v
+}
+fn table_family(acc: &mut Acc, budget: &Budget) {
+    let descs = table_descriptors();
+    let mut ab = Aligned::new(&[]);
+    for names in table_mappings() {
+        if budget.exceeded() {
+            return;
+        }
+        let lines = table_lines(&names);
+        let b = Built { label: leak(&format!("T:{}", names.join(","))), bytes: print_file(&lines, Term::Lf), model: Model::fold(&lines) };
+        let r = cur::with_subjects(&b.bytes, &mut ab, |m, _, c, _| {
+            for d in &descs {
+                check_sig(&b, d, m, c, acc);
+            }
+        });
+        if let Err(e) = r {
+            acc.violation("sig:table-family:build", names.len(), || (e.clone(), json!({"kind":"sig","mapping":b.label,"signature":"","expected":"mapper and cache can be built","observed":e})));
+        }
+        acc.count("class tables of the table family", 1);
+    }
+}
+
 fn check_sig(b: &Built, s: &str, mapper: &dyn Subj, cache: &dyn Subj, acc: &mut Acc) {
     acc.states += 1;
     let exp = expected(s, &b.model);
@@ -337,12 +403,13 @@ pub fn run(tier: Tier) -> i32 {
         prop: "C16",
         tier,
         level: "model_checking",
-        rule: format!("(every answer is read through return_type(), parameters_types(), format_signature() AND Display; with >= 2 parameters the parameters_types() iterator is also consumed through nth / skip / step_by / last / count / size_hint; plus the handle-history pass of props/hist.rs: a second cache / mapper created in the memory of a dropped one) all {} descriptors with <= {} parameters over the type alphabet (primitive, primitive array, mapped object, object named like a primitive, unmapped object containing 'L', nested non-ASCII object array, unmapped names a/b$b and a/b$ whose '$'-prefix is mapped, mapped classes whose obfuscated name lies in java. / javax.{}), plus array dimensions / parameter counts / name lengths of 127..257 and 1000 x every return type incl. V, plus 4..6 parameters of one type; every single-character deletion, substitution and insertion (10-character alphabet) of each; all strings of <= {} characters over that alphabet; x 3 mappings x {{mapper, cache}}. Oracle: an independent JVM-descriptor parser + R14 (valid => exact parameter list, return type and formatted signature; no parenthesised list / no return type / unterminated object type => none; otherwise only mapper == cache and no panic). distinct = distinct expected results", ndesc, if t { 4 } else { 3 }, if t { ", Z, object array" } else { "" }, strdepth),
+        rule: format!("(every answer is read through return_type(), parameters_types(), format_signature() AND Display; with >= 2 parameters the parameters_types() iterator is also consumed through nth / skip / step_by / last / count / size_hint; plus the handle-history pass of props/hist.rs: a second cache / mapper created in the memory of a dropped one) all {} descriptors with <= {} parameters over the type alphabet (primitive, primitive array, mapped object, object named like a primitive, unmapped object containing 'L', nested non-ASCII object array, unmapped names a/b$b and a/b$ whose '$'-prefix is mapped, mapped classes whose obfuscated name lies in java. / javax.{}), plus array dimensions / parameter counts / name lengths of 127..257 and 1000 x every return type incl. V, plus 4..6 parameters of one type; plus the class-table family (every ordered selection of <= 3 of 14 obfuscated class names that differ in '.', '$', '-' or a non-ASCII character at one place, and the whole pool in three orders, as class tables x a descriptor naming each pool name); every single-character deletion, substitution and insertion (10-character alphabet) of each; all strings of <= {} characters over that alphabet; x 3 mappings x {{mapper, cache}}. Oracle: an independent JVM-descriptor parser + R14 (valid => exact parameter list, return type and formatted signature; no parenthesised list / no return type / unterminated object type => none; otherwise only mapper == cache and no panic). distinct = distinct expected results", ndesc, if t { 4 } else { 3 }, if t { ", Z, object array" } else { "" }, strdepth),
         bounds: json!({"descriptors": ndesc, "string_depth": strdepth, "edit_alphabet": EDIT_CHARS.iter().map(|c| c.to_string()).collect::<Vec<_>>(), "mappings": sig_mappings().iter().map(|(l, m)| json!({"label": l, "text": esc(&print_file(m, Term::Lf))})).collect::<Vec<_>>()}),
         assumptions: vec!["a class name inside L...; may not contain [ . ( ) (JVM spec + parenthesis-free so that the parameter list is unambiguous); such strings get no claim".into()],
         trusted_base: vec!["rustc/std".into(), "descriptor parser and R14 in pgmc/src/props/c16.rs".into(), "reference model pgmc/src/model.rs (class lookup R8)".into()],
     };
     let mut acc = acc;
+    table_family(&mut acc, &budget);
     {
         // handle-history pass: handles parsed from recycled memory (props/hist.rs)
         let mut h = Acc::new();
@@ -360,7 +427,12 @@ pub fn recheck(case: &Value) -> Vec<String> {
     let mut acc = Acc::new();
     let label = case["mapping"].as_str().unwrap_or("");
     let sig = case["signature"].as_str().unwrap_or("").to_string();
-    for (l, lines) in sig_mappings() {
+    let mut all = sig_mappings();
+    if let Some(names) = label.strip_prefix("T:") {
+        let names: Vec<&'static str> = names.split(',').map(|n| leak(n)).collect();
+        all.push((leak(label), table_lines(&names)));
+    }
+    for (l, lines) in all {
         if l == label {
             let b = Built { label: l, bytes: print_file(&lines, Term::Lf), model: Model::fold(&lines) };
             let mut ab = Aligned::new(&[]);
